@@ -540,7 +540,9 @@ def run(ctx):
                                                           "sources": [f"o{k}.{'c' if P.kinds[k] == 'c' else 's'}" for k in range(n)], "extra": extra})
 
             ctx.note_case((key,), hi - lo >= 2)
-            rc, _, e1 = lu.link("wild", ["-r", "-o", part] + ys, cwd=d)
+            # the grouping of files into work groups depends on the thread count (with --threads=1 several objects share a group)
+            rthreads = [[], ["--threads=1"], ["--threads=2"], ["--threads=8"]][(lo + hi + len(ys)) % 4]
+            rc, _, e1 = lu.link("wild", rthreads + ["-r", "-o", part] + ys, cwd=d)
             if rc != 0:
                 violation("partial", "wild -r fails on objects that link directly", e1)
                 continue
